@@ -16,7 +16,7 @@ import RsMatterVerif.Lemmas.CodecMdnsRound
 import RsMatterVerif.Lemmas.CodecMdnsService
 import RsMatterVerif.Lemmas.CodecX509Sound -- E3
 import RsMatterVerif.Lemmas.CodecCd -- E3
-import RsMatterVerif.Lemmas.CodecDerLinkX509 -- G5 (audit C17 concern 2; imports CodecDerLink)
+import RsMatterVerif.Lemmas.CodecDerLinkWalk -- G5 (audit C17 concern 2; imports CodecDerLinkX509, CodecDerLink)
 /-!
 # C17 — headers, onboarding payloads and discovery records decode what was encoded
 
@@ -1101,7 +1101,8 @@ The statements live (with docstrings and non-vacuity examples) in `Lemmas/CodecD
 `Codec.Der.readTree_enc`, `Codec.Der.readTree_sound`, `Codec.Der.readTree_iff_parseDer`, `Codec.Der.fromDerAny_enc_der`,
 `Codec.Der.seqItems_encL`, `Codec.CertAsn1.certFieldsOfDer_known`, `C17.cert_der_roundtrip_derrd`,
 `Codec.CertAsn1.hexRead_hexUp`, `Codec.CertAsn1.parseHexU16_hexUp`, `Codec.CertAsn1.asn1_tbs_layout`,
-`C17.cert_x509_field_readers`. -/
+`C17.cert_x509_field_readers`; `Lemmas/CodecDerLinkWalk.lean`: `Codec.DerRd.x509New_tbs_refused`, `Codec.CertAsn1.cal_days`,
+`Codec.CertAsn1.calOf_agree`, `Codec.CertAsn1.run_validity_asn1`, `C17.cert_x509_tbs_walk`. -/
 namespace C17
 open Codec Codec.Der Codec.CertAsn1
 
